@@ -65,6 +65,8 @@ type Schedule struct {
 	KV    string   `json:"kv"` // how keys differ: "input" (trigger input) or "hdr" (forwarded headers hash)
 	Start []string `json:"start"`
 	Steps []Step   `json:"steps"`
+	// NoPark: points that are only recorded in this run (a hook that sits inside a lock in the tree under test)
+	NoPark []string `json:"nopark"`
 }
 
 type Result struct {
@@ -468,7 +470,14 @@ func runSchedule(s Schedule, evw *bufio.Writer) (res Result) {
 	ctl.Terminal = func(id gate.ID, point string) bool {
 		return (id.K == "u" && point == "sub.update.end") || (id.K == "g" && point == "trig.start.end") || (id.K == "sh" && point == "shutdown.end")
 	}
+	noPark := map[string]bool{}
+	for _, p := range s.NoPark {
+		noPark[p] = true
+	}
 	ctl.Parks = func(id gate.ID, point string) bool {
+		if noPark[point] {
+			return false
+		}
 		if point == "sub.unsub.begin" {
 			return id.K != "c"
 		}
@@ -586,8 +595,8 @@ func runSchedule(s Schedule, evw *bufio.Writer) (res Result) {
 					case "hb":
 						ctl.Log("h.cmd", 7, uint64(slot), nil)
 						if h, ok := u.(interface{ Heartbeat() }); ok {
-						h.Heartbeat()
-					}
+							h.Heartbeat()
+						}
 					case "done":
 						ctl.Log("h.cmd", 8, uint64(slot), nil)
 						u.Done()
